@@ -356,8 +356,10 @@ variable {R : Type}
 
 /-- contract of the external solvers as far as C09 needs it (C10 adds optimality / sortedness) -/
 structure ExtOk (ext : Ext R) : Prop where
-  /-- scipy: a one-to-one assignment of full size `min n k`, in bounds -/
+  /-- scipy, on a matrix without `+∞` (with `+∞` entries it may raise, and the model never calls it
+      there): a one-to-one assignment of full size `min n k`, in bounds -/
   lsa : ∀ (M : List (List (Option R))) (k : Nat), (∀ row ∈ M, row.length = k) →
+    (∀ row ∈ M, ∀ o ∈ row, o ≠ none) →
     MatchValid M.length k (ext.lsa M) ∧ (ext.lsa M).length = min M.length k
   /-- numpy: argsort + unravel_index enumerates exactly the index pairs of the matrix -/
   argsort : ∀ (M : List (List (Option R))) (k : Nat), (∀ row ∈ M, row.length = k) →
@@ -445,16 +447,38 @@ theorem greedy_matchValid {n k : Nat} {l : List (Nat × Nat)}
   · exact List.pairwise_map.2 (hp.imp fun h => h.1)
   · exact List.pairwise_map.2 (hp.imp fun h => h.2)
 
-/-- the repaired matching stage never raises and returns a valid, non-trivial assignment -/
+/-- `+∞` (NaN score) fills whole columns only: the shape every cost matrix of the model has, because
+    scores are total and a column is `none` exactly when its track has no candidate.  (A scattered
+    pattern — a NaN score of one detection — is outside the model, see F-C09d.) -/
+def ColPattern (cost : List (List (Option R))) : Prop :=
+  ∀ c : Nat, (∀ row ∈ cost, (row.getD c none).isSome = true) ∨ (∀ row ∈ cost, row.getD c none = none)
+
+theorem subMatrix_allSome (m : Nat) (cost : List (List (Option R))) (hcp : ColPattern cost) :
+    ∀ row ∈ subMatrix cost (validCols true m cost), ∀ o ∈ row, o ≠ none := by
+  intro row hrow o ho
+  simp only [subMatrix, List.mem_map] at hrow
+  obtain ⟨r, hr, rfl⟩ := hrow
+  obtain ⟨c, hc, rfl⟩ := List.mem_map.1 ho
+  have hc' : c ∈ (List.range m).filter (fun c => cost.any (fun row => (row.getD c none).isSome)) := by
+    have h0 : validCols true m cost = (List.range m).filter
+      (fun c => cost.any (fun row => (row.getD c none).isSome)) := by simp [validCols]
+    rw [← h0]; exact hc
+  obtain ⟨r', hr', hs⟩ := List.any_eq_true.1 (List.mem_filter.1 hc').2
+  rcases hcp c with h | h
+  · intro hn; have := h r hr; rw [hn] at this; simp at this
+  · rw [h r' hr'] at hs; simp at hs
+
+/-- the repaired matching stage never raises and returns a valid, non-trivial assignment — on the
+    cost matrices of the model (`ColPattern`) -/
 theorem assignStage_repaired {ext : Ext R} (hext : ExtOk ext) (fx : Fixes) (hfx : fx.stale = true)
-    (mt : Matcher) (m : Nat) (cost : List (List (Option R))) :
+    (mt : Matcher) (m : Nat) (cost : List (List (Option R))) (hcp : ColPattern cost) :
     ∃ ms, assignStage fx mt ext m cost = .ok ms ∧ MatchValid cost.length m ms ∧
       (cost ≠ [] → validCols true m cost ≠ [] → ms ≠ []) := by
   have hrect := subMatrix_rect cost (validCols true m cost)
   have hlen := subMatrix_length cost (validCols true m cost)
   cases mt with
   | hungarian =>
-    obtain ⟨hv, hsz⟩ := hext.lsa _ _ hrect
+    obtain ⟨hv, hsz⟩ := hext.lsa _ _ hrect (subMatrix_allSome m cost hcp)
     rw [hlen] at hv hsz
     refine ⟨_, by simp [assignStage, hfx, infeasible_sub], matchValid_back rfl
       (validCols_nodup _ _ _) (validCols_lt _ _ _) hv, ?_⟩
@@ -544,6 +568,28 @@ theorem validCols_ne_nil [Neg R] (rd : Reduction) (score : φ → φ → R) (can
     have : (reduceP rd ((cands t).map (score f))).isSome = true :=
       reduceP_isSome rd (by simpa using hc)
     simp [toCost, scoreMatrixP, List.getD_eq_getElem?_getD, ht, this]
+
+/-- the model's cost matrices have the column pattern -/
+theorem colPattern_scoreMatrix [Neg R] (rd : Reduction) (score : φ → φ → R) (cands : Nat → List φ)
+    (m : Nat) (cur : List φ) : ColPattern (toCost (scoreMatrixP rd score cands m cur)) := by
+  intro c
+  by_cases hc : c < m ∧ cands c ≠ []
+  · left
+    intro row hrow
+    simp only [toCost, scoreMatrixP, List.map_map, List.mem_map] at hrow
+    obtain ⟨f, _, rfl⟩ := hrow
+    have := reduceP_isSome rd (l := (cands c).map (score f)) (by simpa using hc.2)
+    obtain ⟨a, ha⟩ := Option.isSome_iff_exists.1 this
+    simp [List.getD_eq_getElem?_getD, hc.1, ha]
+  · right
+    intro row hrow
+    simp only [toCost, scoreMatrixP, List.map_map, List.mem_map] at hrow
+    obtain ⟨f, _, rfl⟩ := hrow
+    by_cases h1 : c < m
+    · have h2 : cands c = [] := by
+        by_contra h; exact hc ⟨h1, h⟩
+      simp [List.getD_eq_getElem?_getD, h1, h2, reduceP]
+    · simp [List.getD_eq_getElem?_getD, h1]
 
 end scoresP
 
